@@ -179,7 +179,7 @@ def gen_monoidal(rng, nboxes, cls="monoidal", atoms=("x", "y"), maxw=6,
 
 
 def gen_rigid(rng, nsteps, atoms=("a", "b"), maxw=6, zs=(0, 0, 0, 1, -1, 2, -2, 3, -3),
-              p_template=0.5):
+              p_template=0.5, p_connected=0.5):
     """Random rigid spec mixing boxes, caps and cups of both orientations,
     with snake templates (cap, obstructions on either side, cup)."""
     def ob():
@@ -187,6 +187,7 @@ def gen_rigid(rng, nsteps, atoms=("a", "b"), maxw=6, zs=(0, 0, 0, 1, -1, 2, -2, 
     cur = [ob() for _ in range(rng.randint(0, 3))]
     dom = [list(a) for a in cur]
     boxes, offsets, nb = [], [], [0]
+    connected_mode = rng.random() < p_connected
 
     def add(box, off):
         nonlocal cur
@@ -198,9 +199,9 @@ def gen_rigid(rng, nsteps, atoms=("a", "b"), maxw=6, zs=(0, 0, 0, 1, -1, 2, -2, 
         """random box using wires in [lo, hi) only (None = anywhere)"""
         lo_, hi_ = (0 if lo is None else lo), (len(cur) if hi is None else hi)
         span = hi_ - lo_
-        nin = rng.randint(0, min(2, span))
+        nin = rng.randint(1 if connected_mode and span else 0, min(2, span))
         off = rng.randint(lo_, hi_ - nin)
-        nout = rng.randint(0, 2)
+        nout = rng.randint(1 if connected_mode else 0, 2)
         if len(cur) - nin + nout > maxw:
             nout = 0
         box = {"name": "f%d" % nb[0], "dom": [list(a) for a in cur[off:off + nin]],
